@@ -118,6 +118,12 @@ impl Validator {
                             start_position,
                             mat.end.saturating_sub(MAX_SPLIT_MATCH_LENGTH),
                         );
+                        // The start position comes from the last saved match, which can start
+                        // after the end of this literal: there is nothing to search then (and
+                        // the span would be invalid).
+                        if start > mat.end {
+                            return Matches::None;
+                        }
                         while let Some(s) =
                             validator.find_anchored_rev(mem, start, mat.end, match_type)
                         {
@@ -140,6 +146,11 @@ impl Validator {
                 );
                 let end =
                     std::cmp::min(mem.len(), mat.start.saturating_add(MAX_SPLIT_MATCH_LENGTH));
+
+                // See above: the last saved match can start after the end of this literal.
+                if start > mat.end {
+                    return Matches::None;
+                }
 
                 while let Some(s) = reverse.find_anchored_rev(mem, start, mat.end, match_type) {
                     if let Some(e) = full.find_anchored_fwd(mem, s, end, match_type) {
